@@ -26,7 +26,7 @@ POINTS = [(Fraction(3, 2), Fraction(5, 2)), (Fraction(-1, 2), Fraction(-3, 2)), 
 
 def judge(job):
     key, on, eve = job
-    spec = S.Spec(*key)
+    spec = S.make_spec(key)
     text = spec.model().text()
     options = S.options_of(set(on), eve)
     case = {"spec": spec.key(), "on": list(on), "eve": eve, "text": text}
@@ -45,7 +45,7 @@ def judge(job):
     def viol(sig, msg):
         res["viol"].append((sig, "%s\noptions on: %s, eliminable_variable_expression=%r\n%s" % (msg, list(on), eve, text), case))
 
-    orig_coords = ["s", "der(s)", "u"] + ["a%d" % (i + 1) for i in range(spec.n)]
+    orig_coords = ["s", "der(s)", "u"] + spec.unknowns()
     try:
         cs = S.coords(model)
         vals, recorded = S.param_values(model)
@@ -106,6 +106,20 @@ def judge(job):
                 rp, rs, rb = L.rank(proj), L.rank(simp_rows), L.rank(proj + simp_rows)
                 kind = "solutions-lost" if rb > rp else "solutions-added"
                 viol(kind, "simplified system over %r (rank %d) is not the projection of the original (rank %d, joint %d); eliminated %r (unrecorded %r)\nsimplified rows %r" % (cs, rs, rp, rb, sorted(eliminated), unrecorded, simp_rows))
+        # the initial system (DAE + initial equations) must be preserved in the same sense
+        init_rows = spec.init_rows()
+        if init_rows and simp_rows is not None:
+            try:
+                simp_init = S.affine_rows(model, allvals, initial=True)
+            except Exception as e:  # noqa: BLE001
+                viol("initial-residual-unevaluable:" + type(e).__name__, "simplified initial residual cannot be evaluated: %r" % e)
+                return res
+            if simp_init is None:
+                viol("simplified-initial-not-affine", "the initial equations are affine, the simplified initial residual is not")
+            else:
+                proj = S.project(orig + init_rows, eliminated)
+                if not L.same_row_space(proj, simp_rows + simp_init):
+                    viol("initial-system-changed", "DAE + initial equations over %r are not the projection of the original initial system; simplified initial rows %r" % (cs, simp_init))
     # ---- pointwise at the unique solution
     for s0, u0 in POINTS:
         w = spec.solution(s0, u0)
@@ -145,14 +159,70 @@ def plan(tier):
     return [sp for sp, _ in pl], jobs
 
 
+def _isolated(judge_fn, job):
+    """Run one job in a forked child; a child killed by a signal (casadi stack overflow on a runaway
+    substitution, say) is an outcome of the job, not of the harness."""
+    import multiprocessing as mp
+
+    ctx = mp.get_context("fork")
+    rd, wr = ctx.Pipe(duplex=False)
+
+    def child():
+        try:
+            wr.send(judge_fn(job))
+        finally:
+            wr.close()
+
+    p = ctx.Process(target=child)
+    p.start()
+    wr.close()
+    out = None
+    try:
+        if rd.poll(600):
+            out = rd.recv()
+    except EOFError:
+        out = None
+    p.join(5)
+    if p.is_alive():
+        p.kill()
+        p.join()
+    if out is None:
+        key, on, eve = job
+        spec = S.make_spec(key)
+        text = spec.model().text()
+        case = {"spec": spec.key(), "on": list(on), "eve": eve, "text": text}
+        why = "signal %d" % -p.exitcode if (p.exitcode or 0) < 0 else "no result (exit code %r)" % p.exitcode
+        return {"outcome": "crash", "elim": 0, "viol": [("process-crash:" + ("eve" if eve else "no-eve"), "generate + simplify kills the interpreter (%s) instead of returning or raising\noptions on: %s, eliminable_variable_expression=%r\n%s" % (why, list(on), eve, text), case)]}
+    return out
+
+
+def robust_map(judge_fn, jobs, chunk=512):
+    """pool.map that survives a worker dying: the chunk it died in is re-run job by job in forked children."""
+    from concurrent.futures.process import BrokenProcessPool
+
+    try:
+        with common.Pool() as pool:
+            return pool.map(judge_fn, jobs, chunksize=64)
+    except BrokenProcessPool:
+        pass
+    res = [None] * len(jobs)
+    for lo in range(0, len(jobs), chunk):
+        part = jobs[lo : lo + chunk]
+        try:
+            with common.Pool() as pool:
+                out = pool.map(judge_fn, part, chunksize=16)
+        except BrokenProcessPool:
+            out = [_isolated(judge_fn, j) for j in part]
+        res[lo : lo + chunk] = out
+    return res
+
+
 def run_with(ctx, judge_fn, rule_tail):
     specs, jobs = plan(ctx.tier)
-    jobs = [((tuple(k[0]), tuple(k[1]), k[2], tuple(k[3])), on, eve) for k, on, eve in jobs]
     if ctx.seed:
         r = ctx.seed % len(jobs)
         jobs = jobs[r:] + jobs[:r]
-    with common.Pool() as pool:
-        res = pool.map(judge_fn, jobs, chunksize=64)
+    res = robust_map(judge_fn, jobs)
     outcomes, nontrivial = {}, 0
     for j, r in zip(jobs, res):
         o = r["outcome"].split(":")[0]
@@ -162,7 +232,7 @@ def run_with(ctx, judge_fn, rule_tail):
         for sig, msg, case in r["viol"]:
             ctx.violation(sig, msg, case)
     for k in (0, len(jobs) // 2, len(jobs) - 1):
-        sp = S.Spec(*jobs[k][0])
+        sp = S.make_spec(jobs[k][0])
         ctx.sample({"model": sp.model().text(), "switches_on": jobs[k][1], "eliminable_variable_expression": jobs[k][2]})
     ctx.coverage.update(
         {
@@ -180,7 +250,11 @@ def run_with(ctx, judge_fn, rule_tail):
             "reversed order (thorough: rotations too). Option sets: 'near' = every set of the 13 simplification switches and "
             "eliminable_variable_expression within Hamming distance 1 of the default and of all-on, on (A) in source order, on (B) for "
             "pairs of 6 core forms, (thorough) on (C) in source order; 'wide' = distance 2, thorough only, on (B) core pairs in source / "
-            "reversed order; 'core' = 10 named sets (default, each eliminating pass alone, all-on and its neighbours) on everything else. " % len(S.FORMS) + rule_tail,
+            "reversed order. (D) non-triangular systems: der(s) = a1 plus every non-singular set of k equations from a pool of alias / "
+            "shift / constant forms over the ordered pairs of k = 2 (thorough: 3 with all forms; quick: 3 with the two plain alias forms) "
+            "unknowns -- alias cycles with inconsistent signs, mutually defined unknowns -- in source and reversed order. (E) models of (A) "
+            "in source order with an initial equation (s = 2 * p; a_n = 7 * s + u): DAE + initial equations are compared as one system. "
+            "'core' = 10 named sets (default, each eliminating pass alone, all-on and its neighbours) on everything else. " % len(S.FORMS) + rule_tail,
         }
     )
 
@@ -196,7 +270,7 @@ def run(ctx):
 
 
 def replay(case):
-    r = judge(((tuple(case["spec"][0]), tuple(case["spec"][1]), case["spec"][2], tuple(case["spec"][3])), tuple(case["on"]), case["eve"]))
+    r = judge((case["spec"], tuple(case["on"]), case["eve"]))
     print(case["text"])
     print(r["outcome"], [m.split("\n")[0] for _, m, _ in r["viol"]] or "ok")
     return not r["viol"]
